@@ -360,6 +360,13 @@ func (sc *Scope) evalSel(x *ESel) Val {
 			// and reachable from the heap, hence allocated (in the state it is read from)
 			c.defFact(c.allocFact(sc.cur, Val{T: t, S: SSlice, GT: ft}))
 		}
+		switch ft.Underlying().(type) {
+		case *types.Pointer, *types.Map, *types.Chan:
+			if !strings.Contains(t, "q!") && !strings.Contains(t, "sp!") && !strings.Contains(t, "dummy!") {
+				// a pointer stored in the heap points to an allocated object (or is nil)
+				c.defFact(c.allocFact(sc.cur, Val{T: t, S: SRef, GT: ft}))
+			}
+		}
 		return Val{T: t, S: c.sortOf(ft), GT: ft}
 	}
 	return Val{T: fmt.Sprintf("(%s %s)", c.selName(stT, idx), base.T), S: c.sortOf(ft), GT: ft}
@@ -810,6 +817,11 @@ func (sc *Scope) evalCall(x *ECall) Val {
 			r = fmt.Sprintf("(sl_arr %s)", v.T)
 		}
 		return Val{T: fmt.Sprintf("(and (not (= %s nil)) (not (select %s (root %s))) (select %s (root %s)))", r, c.hget(sc.old, "$alloc"), r, c.hget(sc.cur, "$alloc"), r), S: SBool, GT: boolT}
+	case "was_allocated":
+		// was_allocated(x): the object x (a current value) was already allocated in the old state
+		need(1)
+		v := arg(0)
+		return Val{T: fmt.Sprintf("(select %s (root %s))", c.hget(sc.old, "$alloc"), v.T), S: SBool, GT: boolT}
 	case "allocated":
 		need(1)
 		v := arg(0)
@@ -887,6 +899,11 @@ func (sc *Scope) evalCall(x *ECall) Val {
 		v := sc.eval(x.Args[0])
 		c.compSort["$held"] = "(Array Ref Bool)"
 		return Val{T: c.hsel(sc.cur, "$held", v.T), S: SBool, GT: boolT}
+	case "panicking":
+		// panicking(): a panic is in flight (only meaningful in deferred functions)
+		need(0)
+		c.compSort["$panic"] = SBool
+		return Val{T: c.hget(sc.cur, "$panic"), S: SBool, GT: boolT}
 	case "once":
 		// once(&x.Once): the sync.Once has completed (its function ran to completion)
 		need(1)
@@ -899,20 +916,28 @@ func (sc *Scope) evalCall(x *ECall) Val {
 		lo, hi := sc.toIdx(arg(1)), sc.toIdx(arg(2))
 		return Val{T: fmt.Sprintf("(mk_Slice (sl_arr %s) %s %s %s)", v.T, c.add(fmt.Sprintf("(sl_off %s)", v.T), lo), c.sub(hi, lo), c.sub(fmt.Sprintf("(sl_cap %s)", v.T), lo)), S: SSlice, GT: v.GT}
 	case "elems_frame":
-		// elems_frame(type(T), s): in the element component of []T, every cell outside the
-		// allocation of s's backing array is unchanged between old and current state
-		need(2)
+		// elems_frame(type(T), s1, s2, ...): in the element component of []T, every cell outside the
+		// allocations of the backing arrays of s1, s2, ... is unchanged between old and current state
+		if len(x.Args) < 2 {
+			sc.fail("elems_frame(type(T), s, ...)")
+		}
 		tv := sc.eval(x.Args[0])
 		if tv.TypeLit == nil {
 			sc.fail("elems_frame(type(T), s)")
 		}
-		v := arg(1)
 		comp := c.elemComp(tv.TypeLit)
-		return Val{T: fmt.Sprintf("(forall ((r!e Ref)) (! (=> (and (select %s (root r!e)) (not (= (root r!e) (root (sl_arr %s))))) (= (select %s r!e) (select %s r!e))) :pattern ((select %s r!e))))", c.hget(sc.old, "$alloc"), v.T, c.hget(sc.cur, comp), c.hget(sc.old, comp), c.hget(sc.cur, comp)), S: SBool, GT: boolT}
+		var excl []string
+		for i := 1; i < len(x.Args); i++ {
+			v := arg(i)
+			excl = append(excl, fmt.Sprintf("(not (= (root r!e) (root (sl_arr %s))))", v.T))
+		}
+		return Val{T: fmt.Sprintf("(forall ((r!e Ref)) (! (=> %s (= (select %s r!e) (select %s r!e))) :pattern ((select %s r!e))))", and(append([]string{fmt.Sprintf("(select %s (root r!e))", c.hget(sc.old, "$alloc"))}, excl...)...), c.hget(sc.cur, comp), c.hget(sc.old, comp), c.hget(sc.cur, comp)), S: SBool, GT: boolT}
 	case "only_changed":
 		// only_changed(T.f, x): field component T.f is unchanged at every object allocated in
-		// the old state, except possibly x
-		need(2)
+		// the old state, except possibly x (several exceptions may be given)
+		if len(x.Args) < 2 {
+			sc.fail("only_changed(T.f, x, ...)")
+		}
 		sel, ok := x.Args[0].(*ESel)
 		if !ok {
 			sc.fail("only_changed(T.f, x)")
@@ -935,11 +960,15 @@ func (sc *Scope) evalCall(x *ECall) Val {
 			sc.fail("only_changed: no field %s", sel.Name)
 		}
 		comp := c.fieldComp(tv.TypeLit, idx)
-		xv := arg(1)
-		if xv.S == "Nil" {
-			xv = Val{T: "nil", S: SRef}
+		conds := []string{fmt.Sprintf("(select %s (root r!o))", c.hget(sc.old, "$alloc"))}
+		for i := 1; i < len(x.Args); i++ {
+			xv := arg(i)
+			if xv.S == "Nil" {
+				xv = Val{T: "nil", S: SRef}
+			}
+			conds = append(conds, fmt.Sprintf("(not (= r!o %s))", xv.T))
 		}
-		return Val{T: fmt.Sprintf("(forall ((r!o Ref)) (! (=> (and (select %s (root r!o)) (not (= r!o %s))) (= (select %s r!o) (select %s r!o))) :pattern ((select %s r!o))))", c.hget(sc.old, "$alloc"), xv.T, c.hget(sc.cur, comp), c.hget(sc.old, comp), c.hget(sc.cur, comp)), S: SBool, GT: boolT}
+		return Val{T: fmt.Sprintf("(forall ((r!o Ref)) (! (=> %s (= (select %s r!o) (select %s r!o))) :pattern ((select %s r!o))))", and(conds...), c.hget(sc.cur, comp), c.hget(sc.old, comp), c.hget(sc.cur, comp)), S: SBool, GT: boolT}
 	case "has":
 		// has(m, k): key k is present in map m
 		need(2)
